@@ -271,6 +271,7 @@ func c08Run(r *kit.Run, idx int64, rng *rand.Rand) {
 		}
 		procs = brokerProcs(cfg, []int{2, 4, 16}[rng.IntN(3)])
 		nlate = 24 + 2*rng.IntN(9)
+		nstatic = 8 + rng.IntN(40) // a long subscriber list: a dispatcher's look at it takes a while
 		if nmsg < 200 {
 			nmsg = 200 + rng.IntN(300)
 		}
